@@ -63,6 +63,15 @@ Proof. reflexivity. Qed.
 Lemma tok_text_V s : tok_text (V s) = s.
 Proof. reflexivity. Qed.
 #[export] Hint Rewrite tflat_cons tok_text_T tok_text_V tok_text_pair : tfl.
+Lemma tflat_topnd sl t ts : tflat (topnd sl t ts) = opnd sl t (tflat ts).
+Proof. apply tflat_tparen. Qed.
+Lemma tflat_mparen a b ts : tflat (mparen a b ts) = paren (a || b) (tflat ts).
+Proof.
+  unfold mparen. destruct a; cbn [orb paren].
+  - rewrite tflat_T, tflat_app, tflat_one. reflexivity.
+  - destruct b; cbn [paren]; [|reflexivity]. rewrite tflat_V, tflat_app, tflat_one. reflexivity.
+Qed.
+#[export] Hint Rewrite tflat_topnd tflat_mparen : tfl.
 #[export] Hint Rewrite tflat_app tflat_T tflat_V tflat_tjoin tflat_tparen tflat_alias_toks tflat_falias tflat_one tflat_nil tflat_nil'
   sapp_assoc sapp_nil_r : tfl.
 
@@ -102,14 +111,15 @@ Proof.
   - intros txt alias c og. cbn [render ttoks rmap]. rewrite tflat_alias_toks, tflat_one. reflexivity.
   - intros raw alias c og. cbn [render ttoks rmap]. rewrite tflat_alias_toks, tflat_one. reflexivity.
   - intros txt c og. cbn [render ttoks rmap]. rewrite tflat_one. reflexivity.
-  - (* TNeg *) intros t IH c og. cbn [render ttoks]. rewrite (IH c og). destruct (ttoks c og t); fin.
+  - (* TNeg *) intros t IH c og. cbn [render ttoks]. rewrite (IH _ og). destruct (ttoks _ og t); [cbn [rmap bind]|reflexivity].
+    rewrite tflat_T, tflat_mparen, !tflat_topnd. reflexivity.
   - (* TArith *) intros op l IHl r IHr alias c og. cbn [render ttoks].
-    rewrite (IHl (set_wa c false) og). destruct (ttoks (set_wa c false) og l); [cbn [rmap bind]|reflexivity].
-    rewrite (IHr (set_wa c false) og). destruct (ttoks (set_wa c false) og r); [cbn [rmap bind]|reflexivity].
+    rewrite (IHl _ og). destruct (ttoks _ og l); [cbn [rmap bind]|reflexivity].
+    rewrite (IHr _ og). destruct (ttoks _ og r); [cbn [rmap bind]|reflexivity].
     destruct (wa c); fin.
   - (* TBasic *) intros cm l IHl r IHr alias c og. cbn [render ttoks].
-    rewrite (IHl (set_wa c false) og). destruct (ttoks (set_wa c false) og l); [cbn [rmap bind]|reflexivity].
-    rewrite (IHr (set_wa c false) og). destruct (ttoks (set_wa c false) og r); [cbn [rmap bind]|reflexivity].
+    rewrite (IHl _ og). destruct (ttoks _ og l); [cbn [rmap bind]|reflexivity].
+    rewrite (IHr _ og). destruct (ttoks _ og r); [cbn [rmap bind]|reflexivity].
     destruct (wa c); unfold alias_sql; fin.
   - (* TCplx *) intros bo l IHl r IHr alias c og. cbn [render ttoks].
     rewrite (IHl _ og). destruct (ttoks _ og l); [cbn [rmap bind]|reflexivity].
@@ -183,6 +193,8 @@ Lemma ctx_ok_set_subc v og c b : ctx_ok v og c -> ctx_ok v og (set_subc c b).
 Proof. destruct c; exact (fun H => H). Qed.
 Lemma ctx_ok_set_wn v og c b : ctx_ok v og c -> ctx_ok v og (set_wn c b).
 Proof. destruct c; exact (fun H => H). Qed.
+Lemma ctx_ok_opc v og sl t c : ctx_ok v og c -> ctx_ok v og (opc sl t c).
+Proof. intros H. unfold opc. destruct (operand_parens sl (okind_of t) && negb operand_keeps_subc); [apply ctx_ok_set_subc|]; exact H. Qed.
 Lemma ctx_ok_fctx v og c : ctx_ok v og c -> ctx_ok v (OFn None) (fctx c).
 Proof. intros [H _]. repeat split; assumption. Qed.
 
@@ -198,6 +210,14 @@ Lemma ex_app v a b : ex v a -> ex v b -> ex v (a ++ b).
 Proof. intros. apply Forall_app; split; assumption. Qed.
 Lemma ex_tparen v b ts : ex v ts -> ex v (tparen b ts).
 Proof. intros H. destruct b; cbn [tparen]; [|exact H]. apply ex_T, ex_app; [exact H|apply ex_T, ex_nil]. Qed.
+Lemma ex_topnd v sl t ts : ex v ts -> ex v (topnd sl t ts).
+Proof. apply ex_tparen. Qed.
+Lemma ex_mparen v a b ts : ex v ts -> ex v (mparen a b ts).
+Proof.
+  intros H. unfold mparen. destruct a; [|destruct b; [|exact H]].
+  - apply ex_T, ex_app; [exact H|apply ex_T, ex_nil].
+  - apply ex_V, ex_app; [exact H|apply ex_V, ex_nil].
+Qed.
 Lemma ex_vparen v b p ts : ex v ts -> ex v (vparen b p ts).
 Proof.
   intros H. destruct b, p; cbn [vparen]; try exact H.
@@ -231,6 +251,7 @@ Proof.
     try (apply ex_qual; [exact H|]); try apply ex_T; repeat (apply ex_ident; [exact H|]); apply ex_nil.
 Qed.
 
+#[export] Hint Resolve ctx_ok_opc ex_topnd ex_mparen : exdb.
 #[export] Hint Resolve ctx_ok_set_wa ctx_ok_set_subq ctx_ok_set_subc ctx_ok_set_wn ctx_ok_fctx
   ex_nil ex_T ex_V ex_bool ex_app ex_tparen ex_vparen ex_tjoin ex_ident ex_qual ex_str ex_alias ex_field : exdb.
 
@@ -361,6 +382,14 @@ Proof.
 Qed.
 Lemma erase_tparen b ts : erase (tparen b ts) = eparen b (erase ts).
 Proof. destruct b; cbn [tparen eparen]; [|reflexivity]. rewrite erase_cons, erase_app. reflexivity. Qed.
+Lemma erase_topnd sl t ts : erase (topnd sl t ts) = eparen (operand_parens sl (okind_of t)) (erase ts).
+Proof. apply erase_tparen. Qed.
+Lemma erase_mparen a b ts : erase (mparen a b ts) = eparen a (erase ts).
+Proof.
+  unfold mparen. destruct a; cbn [eparen].
+  - rewrite erase_cons, erase_app. reflexivity.
+  - destruct b; [|reflexivity]. rewrite erase_cons, erase_app. cbn. apply app_nil_r.
+Qed.
 Lemma erase_vparen b ts : erase (vparen b true ts) = erase ts.
 Proof. destruct b; cbn [vparen]; [|reflexivity]. rewrite erase_cons, erase_app. cbn. apply app_nil_r. Qed.
 Lemma erase_vparen_f b ts : erase (vparen b false ts) = eparen b (erase ts).
@@ -379,6 +408,7 @@ Proof. unfold field_toks. destruct tbl as [tb|]; [destruct (wn c || truthy_ostr 
 Lemma erase_mark_group ts : erase (mark_group ts) = [].
 Proof. induction ts as [|t r IH]; [reflexivity|]. cbn [mark_group map]. rewrite erase_cons. exact IH. Qed.
 
+#[export] Hint Rewrite erase_topnd erase_mparen : era.
 #[export] Hint Rewrite erase_app erase_tjoin erase_tparen erase_vparen erase_vparen_f erase_alias_toks erase_falias erase_field
   erase_mark_group erase_cons erase_nil erase_nil' : era.
 
@@ -402,8 +432,14 @@ Lemma csim_set_subc c c' b : csim c c' -> csim (set_subc c b) (set_subc c' b).
 Proof. intros (H1 & H2 & H3 & H4). repeat split; assumption. Qed.
 Lemma csim_set_wn c c' b : csim c c' -> csim (set_wn c b) (set_wn c' b).
 Proof. intros (H1 & H2 & H3 & H4). repeat split; assumption. Qed.
+Lemma csim_opc sl t c c' : csim c c' -> csim (opc sl t c) (opc sl t c').
+Proof.
+  intros H. unfold opc. destruct (operand_parens sl (okind_of t) && negb operand_keeps_subc); [|exact H].
+  destruct H as (H1 & H2 & H3 & H4). repeat split; assumption.
+Qed.
 Lemma csim_fctx c c' : csim c c' -> csim (fctx c) (fctx c').
 Proof. intros (H1 & H2 & H3 & H4). repeat split; assumption. Qed.
+#[export] Hint Resolve csim_opc : exdb.
 #[export] Hint Resolve csim_refl csim_set_wa csim_set_subq csim_set_subc csim_set_wn csim_fctx : exdb.
 
 Lemma erase_array d d' body body' :
